@@ -56,14 +56,20 @@ func c16Image(t *testing.T, nonTxn bool) *Image {
 	defer s.Close()
 	s.Must(s.Req(s.Root, logical.UpdateOperation, "sys/mounts/pki", map[string]interface{}{"type": "pki", "config": map[string]interface{}{"max_lease_ttl": "87600h"}}))
 	for _, n := range []string{"i1", "i2"} {
-		s.Must(s.Req(s.Root, logical.UpdateOperation, "pki/root/generate/internal", map[string]interface{}{
+		// i2 is generated "exported" so that the harness can delete and re-import it (same certificate, new issuer id)
+		resp := s.Must(s.Req(s.Root, logical.UpdateOperation, "pki/root/generate/exported", map[string]interface{}{
 			"common_name": "root " + n, "key_type": "ec", "key_bits": 256, "issuer_name": n, "ttl": "8760h"}))
+		if n == "i2" {
+			c16I2Bundle = fmt.Sprint(resp.Data["certificate"]) + "\n" + fmt.Sprint(resp.Data["private_key"])
+		}
 	}
 	s.Must(s.Req(s.Root, logical.UpdateOperation, "pki/roles/r", map[string]interface{}{
 		"allow_any_name": true, "key_type": "ec", "key_bits": 256, "ttl": "1h", "no_store": false, "generate_lease": false}))
 	s.settle()
 	return s.Image()
 }
+
+var c16I2Bundle string
 
 func c16NewWorld(t *testing.T, s *Sys) *c16World {
 	w := &c16World{s: s, issuers: map[string]*x509.Certificate{}, issuerGone: map[string]bool{},
@@ -274,7 +280,7 @@ type c16Op struct {
 func (o c16Op) String() string { return fmt.Sprintf("%s(%d)", o.Kind, o.Arg) }
 
 func c16Alphabet(ncerts int) []c16Op {
-	out := []c16Op{{"issue", 1}, {"issue", 2}, {"rotate", 0}, {"tidy", 0}, {"auto-rebuild", 1}, {"auto-rebuild", 0}, {"delete-issuer2", 0}, {"restart", 0}}
+	out := []c16Op{{"issue", 1}, {"issue", 2}, {"rotate", 0}, {"tidy", 0}, {"auto-rebuild", 1}, {"auto-rebuild", 0}, {"delete-issuer2", 0}, {"restart", 0}, {"reimport-issuer2", 0}}
 	for i := 0; i < ncerts; i++ {
 		out = append(out, c16Op{"revoke", i})
 	}
@@ -336,6 +342,43 @@ func (w *c16World) apply(t *testing.T, op c16Op) (string, string) {
 		if OK(resp, err) {
 			w.issuerGone["i2"] = true
 		}
+	case "reimport-issuer2":
+		// the issuer is removed and the very same certificate + key imported again: it gets a
+		// NEW issuer id; certificates it issued and that were revoked stay revoked and must be
+		// on the CRL served for it (a rotate is part of the step so that "served now" is meaningful)
+		if !w.issuerGone["i2"] {
+			if resp, err := w.s.Req(w.s.Root, logical.DeleteOperation, "pki/issuer/i2", nil); !OK(resp, err) {
+				return "delete-issuer-failed", ErrText(resp, err)
+			}
+		}
+		resp, err := w.s.Req(w.s.Root, logical.UpdateOperation, "pki/issuers/import/bundle", map[string]interface{}{"pem_bundle": c16I2Bundle})
+		if !OK(resp, err) || resp == nil {
+			return "import-issuer-failed", ErrText(resp, err)
+		}
+		var id string
+		switch v := resp.Data["imported_issuers"].(type) {
+		case []string:
+			if len(v) > 0 {
+				id = v[0]
+			}
+		case []interface{}:
+			if len(v) > 0 {
+				id = fmt.Sprint(v[0])
+			}
+		}
+		if id == "" {
+			t.Fatalf("harness: import reported no new issuer: %v", resp.Data)
+		}
+		if r2, e2 := w.s.Req(w.s.Root, logical.UpdateOperation, "pki/issuer/"+id, map[string]interface{}{"issuer_name": "i2"}); !OK(r2, e2) {
+			return "rename-issuer-failed", ErrText(r2, e2)
+		}
+		w.issuerGone["i2"] = false
+		delete(w.lastCRLNum, "i2") // a new issuer identity starts a new CRL series
+		delete(w.lastCRLRaw, "i2")
+		if ok, txt := w.rotate(); !ok {
+			return "rotate-failed", txt
+		}
+		w.rotatedSinceRevoke = true
 	case "restart":
 		img2 := w.s.Image()
 		w.s.Close()
@@ -452,6 +495,9 @@ func TestVerifC16(t *testing.T) {
 		}
 	}
 	// ---- F / K on revoke and rotate
+	if only == "" || only == "S" {
+		c16PartS(t, res, &count)
+	}
 	if only == "" || only == "F" {
 		for _, nonTxn := range []bool{false, true} {
 			if nonTxn && !vout.Thorough() {
